@@ -9,6 +9,7 @@ import z3
 
 from .path import Path
 from .sym import (
+    DeadPath,
     PyRaise,
     SBool,
     SByteArray,
@@ -313,16 +314,7 @@ def conc_len(p: Path, b: SBytes) -> Optional[int]:
     c = b.conc_len()
     if c is not None:
         return c
-    r = p._check()
-    if r != z3.sat:
-        return None
-    try:
-        v = p.solver.model().eval(b.n, model_completion=True).as_long()
-    except Exception:  # pylint: disable=broad-except
-        return None
-    if p.entails(b.n == v):
-        return v
-    return None
+    return p.fixed_value(b.n)
 
 
 def bytes_eq_term(p: Path, a: Any, b: Any) -> Any:
@@ -454,15 +446,7 @@ def int_to_bytes(p: Path, v: Any, length: Any, order: str, signed: bool = False)
     tv = int_term(v)
     if isinstance(length, (SInt, SBool)):
         # concretise by entailment
-        r = p._check()
-        n = None
-        if r == z3.sat:
-            try:
-                cand = p.solver.model().eval(int_term(length), model_completion=True).as_long()
-                if p.entails(int_term(length) == cand):
-                    n = cand
-            except Exception:  # pylint: disable=broad-except
-                n = None
+        n = p.fixed_value(int_term(length))
         if n is None:
             return int_to_bytes_symlen(p, tv, int_term(length), order)
     else:
@@ -500,7 +484,20 @@ def int_from_bytes(p: Path, b: Any, order: str, signed: bool = False) -> Any:
     b = as_sbytes(b)
     n = conc_len(p, b)
     if n is None:
-        raise Unsupported("int.from_bytes on a byte string of symbolic length")
+        # bounded symbolic length: exact case split over the possible lengths
+        cap = None
+        for c in (4, 8, 16, 32, 64):
+            if p.entails(b.n <= c):
+                cap = c
+                break
+        if cap is None:
+            raise Unsupported("int.from_bytes on a byte string of unbounded symbolic length")
+        for k in range(cap + 1):
+            if p.branch(b.n == k, f"from_bytes-len{k}"):
+                n = k
+                break
+        if n is None:
+            raise DeadPath()
     if n == 0:
         return 0
     t: Any = None
